@@ -15,6 +15,8 @@ import EinoV.Proofs.C04Lazy
 import EinoV.Gen.FactsC04
 import EinoV.Expected.C04
 import EinoV.Proofs.C04Key
+import EinoV.Model.C04FMap
+import EinoV.Proofs.C04FMap
 
 namespace EinoV.C04
 open EinoV.Engine EinoV.Gen
@@ -439,5 +441,94 @@ theorem input_key_forwards_good {V} (vs : List V) :
     key makes `Recv` panic in the reader's goroutine, while value mode returns an ordinary error -/
 theorem input_key_nil_panicked_before_repair :
     panicsAt (V := Nat) false [.good 1, .nilVal] = true ∧ keyValue (V := Nat) .nilVal = .error errKeyType := ⟨rfl, rfl⟩
+
+/-! ### map chunks through field mappings (`Model/C04FMap.lean`): a producer that distributes the
+    mapped keys over its chunks, splits string values, or carries nil / wrongly typed values -/
+
+/-- fact tie: the combined run-time checker `validateFieldMapping` puts on an edge visits the entries
+    the field map HAS (it ranges over the map, or looks a key up with comma-ok) — it does not look
+    every checked target up directly, which finds nil for the keys a stream chunk does not carry -/
+theorem field_checker_fact : FactsC04.fieldCheckerPresentKeysOnly = true := by decide
+
+/-- **field_mapped_chunks_agree.** "… however producers split their output into chunks … wherever
+    streams pass … field mappings", for one edge with field mappings `ms` (pairwise distinct targets;
+    any mixture of mappings with and without a run-time checker, nilable or not) and EVERY way `cs` of
+    splitting a `map[string]any` value into at least one chunk such that, per key, the chunks carry
+    string pieces only or at most one chunk carries the key (`SplitOK`: then the chunks concatenate —
+    `concatCols` succeeds), and every mapped key is carried by some chunk:
+    the successor's input obtained in stream mode — field map, checker and conversion chunk by chunk
+    (`fmStream`, with the checker as the source has it), then concatenation of the converted chunks —
+    is the one value mode builds from the concatenated value (`fmValue`), and a refusal in value mode
+    (nil or a wrongly typed value under a checked mapping) is a failure in stream mode too: never a
+    success in one and a failure in the other. -/
+theorem field_mapped_chunks_agree (ms : List FMapping) (cs : List FChunk) (ks : List Key)
+    (hne : cs ≠ []) (hnd : (ms.map (·.dst)).Nodup)
+    (hks : ∀ m ∈ ms, m.src ∈ ks)
+    (hsplit : ∀ k ∈ ks, SplitOK (occ k cs))
+    (hpres : ∀ m ∈ ms, occ m.src cs ≠ []) :
+    ∃ whole, concatCols cs ks = .ok whole ∧
+      (∀ t, fmValue ms whole = .ok t →
+        fmConcat (ms.map (·.dst)) (fmStream FactsC04.fieldCheckerPresentKeysOnly ms cs) = .ok t) ∧
+      (∀ e, fmValue ms whole = .error e →
+        ∃ e', fmConcat (ms.map (·.dst)) (fmStream FactsC04.fieldCheckerPresentKeysOnly ms cs) = .error e') := by
+  rw [field_checker_fact]
+  exact fmap_agree_expected ms cs ks hne hnd hks hsplit hpres
+
+/-- **field_mapped_fan_in_agrees.** The same for a sink (a node, or END) that takes fields from any
+    number of sources — edges `es`, each with its own mappings, its source's chunks and the keys of its
+    source's map; all targets pairwise distinct, every edge's chunks a well-formed split that carries
+    every mapped key (`EdgeOK`): the value the sink is handed in stream mode (every edge converted
+    chunk by chunk, the converted streams merged, the merged chunks concatenated key by key —
+    `fmStreamAll`) is the value it is handed in value mode (every source's chunks concatenated, every
+    edge's field map of the whole value checked, the union — `fmInvokeAll`), and a failure in value
+    mode is a failure in stream mode. -/
+theorem field_mapped_fan_in_agrees (es : List FEdge) (hes : es ≠ [])
+    (hok : ∀ e ∈ es, EdgeOK e.ms e.cs e.keys) (hnd : (es.flatMap FEdge.dsts).Nodup) :
+    (∀ t, fmInvokeAll es = .ok t → fmStreamAll FactsC04.fieldCheckerPresentKeysOnly es = .ok t) ∧
+    (∀ err, fmInvokeAll es = .error err → ∃ err', fmStreamAll FactsC04.fieldCheckerPresentKeysOnly es = .error err') := by
+  rw [field_checker_fact]
+  exact fmap_fanin_agree_expected es hes hok hnd
+
+/-- **field_mapped_chunk_refused_only_for_its_own_values.** In stream mode a chunk is turned into an
+    error item only because of a value it carries: some mapped key is in the chunk and the checker of
+    that mapping refuses the value found there — never because of a key the chunk lacks. -/
+theorem field_mapped_chunk_refused_only_for_its_own_values (ms : List FMapping) (c : FChunk) (e : Err)
+    (h : fmChunk FactsC04.fieldCheckerPresentKeysOnly ms c = .error e) :
+    ∃ m ∈ ms, c.get m.src ≠ .absent ∧ ∃ e', checkVal m (c.get m.src) = .error e' := by
+  rw [field_checker_fact] at h
+  exact fmChunk_err ms c e h
+
+/-- negation witness: a checker that looks every checked target up (instead of visiting the entries
+    of the chunk's field map) refuses `{"a":"x"}, {"b":"y"}` in stream mode while value mode accepts the
+    concatenated map -/
+theorem field_checker_direct_lookup_breaks_split_chunks :
+    let ms : List FMapping := [{ src := "a", dst := "A" }, { src := "b", dst := "B" }]
+    let cs : List FChunk := [[("a", .good "x")], [("b", .good "y")]]
+    concatCols cs ["a", "b"] = .ok [("a", .good "x"), ("b", .good "y")] ∧
+    fmValue ms [("a", .good "x"), ("b", .good "y")] = .ok [("A", .good "x"), ("B", .good "y")] ∧
+    fmConcat ["A", "B"] (fmStream true ms cs) = .ok [("A", .good "x"), ("B", .good "y")] ∧
+    fmConcat ["A", "B"] (fmStream false ms cs) = .error errNotAssignable := by
+  refine ⟨by rfl, by rfl, by rfl, by rfl⟩
+
+/-! non-vacuity: the hypotheses of `field_mapped_chunks_agree` hold for a three-chunk split with a
+    string in two pieces, a key per chunk and an unmapped key; a refused value is refused in both modes -/
+example : let cs : List FChunk := [[("a", .good "x1")], [("b", .good "y"), ("z", .wrong)], [("a", .good "x2")]]
+    (∀ k ∈ ["a", "b", "z"], SplitOK (occ k cs)) ∧ occ "a" cs = [.good "x1", .good "x2"] ∧
+    fmConcat ["A", "B"] (fmStream true [{ src := "a", dst := "A" }, { src := "b", dst := "B" }] cs)
+      = .ok [("A", .good "x1x2"), ("B", .good "y")] := by
+  refine ⟨?_, by rfl, by rfl⟩
+  intro k hk
+  simp only [List.mem_cons, List.not_mem_nil, or_false] at hk
+  rcases hk with rfl | rfl | rfl
+  · exact .inl (by decide)
+  · exact .inr (by decide)
+  · exact .inr (by decide)
+example : fmValue [{ src := "a", dst := "A" }] [("a", .nilV)] = .error errNotAssignable ∧
+    fmConcat ["A"] (fmStream true [{ src := "a", dst := "A" }] [[("z", .good "q")], [("a", .nilV)]]) = .error errNotAssignable ∧
+    fmValue [{ src := "a", dst := "A", checked := false }] [("a", .nilV)] = .ok [("A", .nilV)] := ⟨by rfl, by rfl, by rfl⟩
+example : let es : List FEdge := [{ ms := [{ src := "a", dst := "A" }], cs := [[("a", .good "x")], [("z", .nilV)]], keys := ["a", "z"] },
+      { ms := [{ src := "b", dst := "B", checked := false }], cs := [[("b", .wrong)]], keys := ["b"] }]
+    fmInvokeAll es = .ok [("A", .good "x"), ("B", .wrong)] ∧ fmStreamAll true es = .ok [("A", .good "x"), ("B", .wrong)] ∧
+    fmStreamAll false es = .error errNotAssignable := ⟨by rfl, by rfl, by rfl⟩
 
 end EinoV.C04
